@@ -151,7 +151,8 @@ CLAIMED["C03"] = dict(
          "i=0..n-1, namespace resolution (plain / leading dots / dotted), arity overloading. Seeded macro programs whose identifier pools make caller "
          "labels collide with callee parameters, locals and rep iterators at several depths are inlined BY TLC (LocalNamesUnique checked); the real "
          "assembler assembles the original, TLC's inlined macro-free program and the original split over two files at top-level boundaries - the images "
-         "and segments must be equal.",
+         "and segments must be equal. Two thirds of the definitions declare the global labels they use (<) and the extern labels they define (>); "
+         "an extern label of a macro expanded twice is a duplicate global label and must be refused.",
     note="Trusted: FJMacro!Inline as the meaning of 'textual inlining'. Programs are seeded samples (no recursion, warnings not errors, `$` never "
          "passed as an argument, a body never spells a global like one of its own binders); small-scope exhaustive enumeration is planned.",
     ref="DESIGN.md section 2 (C03)",
